@@ -2,6 +2,7 @@
 From Coq Require Import List NArith.
 From PatVerif Require Import Model.Quicwire Gen.Src.
 Import ListNotations. Open Scope N_scope.
-Example tie_max : s_max_varint = max_varint. Proof. reflexivity. Qed.
-Example tie_thresholds : s_varint_thresholds = [63; 16383; 1073741823; max_varint]. Proof. reflexivity. Qed.
-Example tie_size_thresholds : s_varint_size_thresholds = s_varint_thresholds. Proof. reflexivity. Qed.
+Ltac t := vm_compute; first [reflexivity | exact I | repeat split; reflexivity].
+Example tie_max : tie s_max_varint (fun v => v = max_varint). Proof. t. Qed.
+Example tie_thresholds : tie s_varint_thresholds (fun v => v = [63; 16383; 1073741823; max_varint]). Proof. t. Qed.
+Example tie_size_thresholds : tie s_varint_size_thresholds (fun v => v = [63; 16383; 1073741823; max_varint]). Proof. t. Qed.
